@@ -33,6 +33,11 @@ class R:
         if k == "bin":
             op = {"and": self.AND, "or": self.OR}.get(x[1], x[1])
             return f"({self.e(x[2])} {op} {self.e(x[3])})"
+        if k == "binraw":
+            op = {"and": self.AND, "or": self.OR}.get(x[1], x[1])
+            return f"{self.e(x[2])} {op} {self.e(x[3])}"
+        if k == "tern":
+            return self.tern(x)
         if k == "not":
             return f"({self.NOT}{self.e(x[1])})" if self.NOT != "not" else f"(not {self.e(x[1])})"
         if k == "neg":
@@ -43,6 +48,25 @@ class R:
 
     def fname(self, n):
         return n
+
+    def tern(self, x):
+        return f"({self.e(x[1])} ? {self.e(x[2])} : {self.e(x[3])})"
+
+    ELSEIF = "} else if ("
+
+    def ifchain(self, st, ind):
+        out = []
+        for n, (c, body) in enumerate(st[1]):
+            out += [f"{ind}if ({self.e(c)}) {{" if n == 0 else f"{ind}{self.ELSEIF}{self.e(c)}) {{"] + self.block(body, ind + "    ")
+        if st[2] is not None:
+            out += [f"{ind}}} else {{"] + self.block(st[2], ind + "    ")
+        return out + [f"{ind}}}"]
+
+    def aug(self, st, ind):
+        return [f"{ind}{self.var(st[1])} {st[2]}= {self.e(st[3])};"]
+
+    def incdec(self, st, ind):
+        return [f"{ind}{self.var(st[1])}{'++' if st[0] == 'inc' else '--'};"]
 
     def block(self, stmts, ind):
         out = []
@@ -78,6 +102,12 @@ class R:
             return [f"{ind}while ({self.e(st[1])}) {{"] + self.block(st[2], ind + "    ") + [f"{ind}}}"]
         if k == "for":
             return self.for_(st, ind)
+        if k == "ifchain":
+            return self.ifchain(st, ind)
+        if k == "aug":
+            return self.aug(st, ind)
+        if k in ("inc", "dec"):
+            return self.incdec(st, ind)
         raise ValueError(k)
 
     def for_(self, st, ind):
@@ -116,6 +146,23 @@ class Py(R):
         if k == "for":
             return [f"{ind}for {st[1]} in range({self.e(st[2])}, {self.e(st[3])}):"] + self.block(st[4], ind + "    ")
         return R.s(self, st, ind)
+
+    def tern(self, x):
+        return f"({self.e(x[2])} if {self.e(x[1])} else {self.e(x[3])})"
+
+    def ifchain(self, st, ind):
+        out = []
+        for n, (c, body) in enumerate(st[1]):
+            out += [f"{ind}{'if' if n == 0 else 'elif'} {self.e(c)}:"] + self.block(body, ind + "    ")
+        if st[2] is not None:
+            out += [f"{ind}else:"] + self.block(st[2], ind + "    ")
+        return out
+
+    def aug(self, st, ind):
+        return [f"{ind}{st[1]} {st[2]}= {self.e(st[3])}"]
+
+    def incdec(self, st, ind):
+        return [f"{ind}{st[1]} = {st[1]} {'+' if st[0] == 'inc' else '-'} 1"]
 
     def program(self, funcs):
         out = []
@@ -220,6 +267,20 @@ class Go(R):
             return [f"{ind}for {v} := {self.e(st[2])}; {v} < {self.e(st[3])}; {v}++ {{"] + self.block(st[4], ind + "    ") + [f"{ind}}}"]
         return R.s(self, st, ind)
 
+    def ifchain(self, st, ind):
+        out = []
+        for n, (c, body) in enumerate(st[1]):
+            out += [f"{ind}if {self.e(c)} {{" if n == 0 else f"{ind}}} else if {self.e(c)} {{"] + self.block(body, ind + "    ")
+        if st[2] is not None:
+            out += [f"{ind}}} else {{"] + self.block(st[2], ind + "    ")
+        return out + [f"{ind}}}"]
+
+    def aug(self, st, ind):
+        return [f"{ind}{st[1]} {st[2]}= {self.e(st[3])}"]
+
+    def incdec(self, st, ind):
+        return [f"{ind}{st[1]}{'++' if st[0] == 'inc' else '--'}"]
+
     def program(self, funcs):
         out = ["package m", ""]
         for (name, params, body) in funcs:
@@ -310,6 +371,40 @@ def core_programs():
     add("call_stmt", "call statement", [("expr", ("call", "g", [a, b])), ("ret", a)], extra=[g])
     rec = ("r", ["n", "q"], [("if", B("<=", V("n"), I(0)), [("ret", I(0))], None), ("ret", B("+", V("n"), ("call", "r", [B("-", V("n"), I(1)), V("q")])))])
     add("recursion", "recursion", [("ret", ("call", "r", [a, b]))], extra=[rec], bounds={"a": (0, 3)})
+    # ---- generated expression / statement forms (round 2) ---------------------------------------------------------------
+    names = {"<": "lt", "<=": "le", ">": "gt", ">=": "ge", "==": "eq", "!=": "ne", "+": "add", "-": "sub", "*": "mul"}
+
+    def bump(cond, k):
+        return ("if", cond, [("set", "x", B("+", V("x"), I(k)))], None)
+    for op in ["<", "<=", ">", ">=", "==", "!="]:
+        add(f"cmp_lit_{names[op]}", f"comparison {op} with a literal on either side",
+            [("let", "x", I(0)), bump(B(op, I(3), a), 1), bump(B(op, a, I(3)), 2), bump(B(op, I(0), b), 4), ("ret", V("x"))])
+    for op in ["+", "-", "*"]:
+        add(f"bin_lit_{names[op]}", f"binary {op} with a literal on either side",
+            [("let", "x", B(op, I(5), a)), ("let", "y", B(op, b, I(5))), ("out", V("x")), ("ret", B("-", V("x"), V("y")))])
+    add("not_not", "double logical not", [("let", "x", I(0)), bump(("not", ("not", c)), 1), bump(("not", ("not", ("not", c))), 2), ("ret", V("x"))])
+    add("neg_neg", "double unary minus", [("let", "x", ("neg", ("neg", a))), ("let", "y", ("neg", ("neg", ("neg", b)))), ("out", V("x")), ("ret", B("-", V("x"), V("y")))])
+    add("not_cmp", "not of a comparison", [("let", "x", I(0)), bump(("not", B("<", a, b)), 1), bump(("not", B("==", a, b)), 2), ("ret", V("x"))])
+    add("neg_in_expr", "unary minus inside arithmetic", [("let", "x", B("-", a, ("neg", b))), ("let", "y", B("*", ("neg", a), b)), ("out", V("x")), ("ret", B("+", V("x"), V("y")))])
+    add("not_and_not", "negated operands of and/or", [("let", "x", I(0)), bump(B("and", ("not", c), B("<", a, b)), 1), bump(B("or", ("not", c), ("not", B("<", a, b))), 2), ("ret", V("x"))])
+    add("assoc_sub", "unparenthesised a - b - 2 and a - (b - 2)", [("let", "x", ("binraw", "-", ("binraw", "-", a, b), I(2))), ("let", "y", ("binraw", "-", a, B("-", b, I(2)))), ("out", V("x")), ("ret", V("y"))])
+    add("prec_mul_add", "unparenthesised a + b * 2 and a * b + 2", [("let", "x", ("binraw", "+", a, ("binraw", "*", b, I(2)))), ("let", "y", ("binraw", "+", ("binraw", "*", a, b), I(2))), ("out", V("x")), ("ret", V("y"))])
+    add("prec_cmp_and", "unparenthesised a < b && b < 3 || c", [("let", "x", I(0)), bump(("binraw", "or", ("binraw", "and", ("binraw", "<", a, b), ("binraw", "<", b, I(3))), c), 1), ("ret", V("x"))])
+    for op in ["+", "-", "*"]:
+        add(f"aug_{names[op]}", f"compound assignment {op}=", [("let", "x", a), ("aug", "x", op, b), ("out", V("x")), ("aug", "x", op, B("-", V("x"), I(2))), ("ret", V("x"))])
+    add("inc_dec", "x++ / x-- statements", [("let", "x", a), ("let", "y", b), ("inc", "x"), ("dec", "y"), ("inc", "x"), ("out", V("x")), ("ret", B("-", V("x"), V("y")))])
+    add("else_if_chain", "else-if chain", [("let", "x", I(0)), ("ifchain", [(B("<", a, I(0)), [("set", "x", I(1))]), (B("<", a, b), [("set", "x", I(2))]), (c, [("set", "x", I(3))])], [("set", "x", I(4))]),
+                                           ("out", V("x")), ("ret", V("x"))])
+    add("else_if_no_else", "else-if chain without else", [("let", "x", I(0)), ("ifchain", [(B("<", a, I(0)), [("set", "x", I(1))]), (B("<", a, b), [("set", "x", I(2))])], None), ("ret", V("x"))])
+    add("if_not_else", "if (!c) with else", [("let", "x", I(0)), ("if", ("not", c), [("set", "x", a)], [("set", "x", b)]), ("ret", V("x"))])
+    add("ternary", "conditional expression", [("let", "x", ("tern", c, a, b)), ("let", "y", ("tern", B("<", a, b), B("-", a, I(1)), ("tern", c, I(7), b))), ("out", V("x")), ("ret", V("y"))],
+        bounds={"skip_langs": ["go"]})
+    add("while_and_cond", "while with a compound condition", [("let", "i", I(0)), ("while", B("and", B("<", V("i"), a), B("!=", V("i"), b)), [("inc", "i")]), ("ret", V("i"))], bounds=lb)
+    add("while_not_cond", "while with a negated condition", [("let", "i", I(0)), ("while", ("not", B(">=", V("i"), a)), [("aug", "i", "+", I(1))]), ("ret", V("i"))], bounds=lb)
+    add("for_aug_body", "counted for with compound assignment", [("let", "s", I(1)), ("for", "i", I(0), a, [("aug", "s", "*", I(2)), ("aug", "s", "-", V("i"))]), ("ret", V("s"))], bounds=lb)
+    add("for_lo_hi", "counted for from a to a + b", [("let", "s", I(0)), ("for", "i", b, B("+", a, b), [("aug", "s", "+", V("i"))]), ("ret", V("s"))], bounds=lb)
+    add("return_expr_call", "return of a compound expression", [("ret", B("-", B("*", a, I(3)), ("call", "g", [b, ("neg", a)])))], extra=[g])
+    add("call_nested", "call as argument of a call", [("ret", ("call", "g", [("call", "g", [a, b]), ("call", "g", [b, I(1)])]))], extra=[g])
     return P
 
 
@@ -318,6 +413,10 @@ def render_all():
     out = []
     for (name, construct, funcs, bounds) in core_programs():
         py = RENDERERS["python"].program(funcs)
+        bounds = dict(bounds)
+        skip = bounds.pop("skip_langs", [])
         for lang, r in RENDERERS.items():
+            if lang in skip:
+                continue
             out.append((name, construct, lang, r.program(funcs), py, bounds))
     return out
